@@ -88,3 +88,82 @@ mut("C25", "R25.1", "member-name-dropped", PA + "grammar/symbol.rs",
 # ---- C29
 mut("C29", "R29.2", "publish-from-close", LS + "server.rs",
     "    pub(crate) fn handle_close_document(", "    #[allow(dead_code)]\n    pub(crate) fn republish(&self, connection: Arc<lsp_server::Connection>, uri: Uri) {\n        let _ = Self::notify_analysis_ok(connection, uri, 0);\n    }\n\n    pub(crate) fn handle_close_document(")
+
+# ---- C03
+mut("C03", "R03.1", "ok-without-accept", LRT,
+    "                None => {\n                    self.handle_parse_error(&stream, current_state, terminal_index)?;\n                }",
+    "                None => {\n                    if terminal_index == 0 {\n                        break;\n                    }\n                    self.handle_parse_error(&stream, current_state, terminal_index)?;\n                }")
+mut("C03", "R03.3", "reduce-pops-one-less", LRT,
+    "                            for _ in 0..n {\n                                // Pop n states from the stack",
+    "                            for _ in 1..n {\n                                // Pop n states from the stack")
+mut("C03", "R03.4", "action-twice", LRT,
+    "        user_actions.call_semantic_action_for_production_number(prod_num, &arguments)?;\n        Ok(n)",
+    "        user_actions.call_semantic_action_for_production_number(prod_num, &arguments)?;\n        if n == 0 {\n            user_actions.call_semantic_action_for_production_number(prod_num, &arguments)?;\n        }\n        Ok(n)")
+# ---- C04
+mut("C04", "R04.1", "no-warnings", PA + "analysis/lalr1_parse_table.rs",
+    "    fn warn_on_resolved_conflicts(&self) -> bool {\n        true\n    }", "    fn warn_on_resolved_conflicts(&self) -> bool {\n        false\n    }")
+mut("C04", "R04.2", "record-only-some", PA + "analysis/lalr1_parse_table.rs",
+    "        self.calls.borrow_mut().push(conflict);", "        if self.calls.borrow().is_empty() {\n            self.calls.borrow_mut().push(conflict);\n        }")
+# ---- C07
+mut("C07", "R07.1", "sort-by-term-first", PA + "analysis/compiled_la_dfa.rs",
+    "            transitions.sort_by_key(|s| (s.from_state, s.term));", "            transitions.sort_by_key(|s| (s.term, s.from_state));")
+mut("C07", "R07.2", "group-accepting-by-state", PA + "analysis/compiled_la_dfa.rs",
+    "            let combinable_groups = group_by(&final_states, |t| t.1);", "            let combinable_groups = group_by(&final_states, |t| t.0 as i32 / 2);")
+mut("C07", "R07.4", "k-not-copied", PA + "analysis/compiled_la_dfa.rs",
+    "                productions,\n                k: value.k,", "                productions,\n                k: value.transitions.len().min(1),")
+# ---- C09 / C10 / C33
+mut("C09", "R09.1", "stale-exclusions", PA + "transformation/canonicalization.rs",
+    "    while modified {\n        let exclusions = variable_names(&productions);\n        if let Some((name, prod_num, alts)) =",
+    "    let exclusions = variable_names(&productions);\n    while modified {\n        if let Some((name, prod_num, alts)) =")
+mut("C09", "R09.2", "bypass-generate-name", PA + "transformation/canonicalization.rs",
+    "        let r_tick_name = generate_name(exclusions.iter(), production_name + \"List\");",
+    "        let r_tick_name = if exclusions.len() > 4000 {\n            generate_name(exclusions.iter(), production_name + \"List\")\n        } else {\n            production_name + \"List\"\n        };")
+mut("C10", "R10.1", "empty-exclusions", PA + "transformation/left_factoring.rs",
+    "        let exclusions = var_names(&operand.pr);", "        let exclusions: Vec<String> = Vec::new();\n        let _ = var_names(&operand.pr);")
+mut("C33", "R33.1", "terminal-names-not-excluded", PA + "generators/lexer_generator.rs",
+    "            let n = generate_name(\n                acc.iter(),", "            let n = generate_name(\n                acc.iter().take(5),")
+# ---- C13
+mut("C13", "R13.3", "user-terminals-reversed", PA + "generators/scanner_config.rs",
+    "        let mut terminal_mappings = cfg.get_ordered_terminals().iter().enumerate().fold(",
+    "        let mut terminal_mappings = cfg.get_ordered_terminals().iter().enumerate().rev().fold(")
+mut("C13", "R13.1", "parser-peeks-scanner", RT + "lexer/token_stream.rs",
+    "    pub fn all_input_consumed(&self) -> bool {", "    pub fn all_input_consumed(&self) -> bool {\n        let _ = self.token_iter.find_iter.current_mode();")
+# ---- C14
+mut("C14", "R14.2", "gap-text-off-by-one", RT + "lexer/token_buffer.rs",
+    "                    &input[gap_location.start as usize..gap_location.end as usize],",
+    "                    &input[gap_location.start as usize..gap_location.start as usize],")
+mut("C14", "R14.1", "skip-tokens-filtered", LRT,
+    "            .take_skip_tokens()\n            .drain(..)\n            .try_for_each(|t| {", "            .take_skip_tokens()\n            .drain(..)\n            .skip(1)\n            .try_for_each(|t| {")
+# ---- C16
+mut("C16", "R16.1", "catch-all-depends-on-auto-ws", PA + "generators/scanner_config.rs",
+    "        if !self.allow_unmatched {\n            let error_index", "        if !self.allow_unmatched && self.auto_ws {\n            let error_index")
+# ---- C21
+mut("C21", "R21.1", "trans-fields-swapped", PA + "generators/parser_generator.rs",
+    "                    t.from_state, t.term, t.to_state, t.prod_num\n                ));\n                acc\n            },\n        );\n        let k = automaton_ir.k;",
+    "                    t.to_state, t.term, t.from_state, t.prod_num\n                ));\n                acc\n            },\n        );\n        let k = automaton_ir.k;")
+mut("C21", "R21.2", "no-reverse", PA + "generators/parser_generator.rs",
+    "        let production = production_ir.rhs.iter().rev().fold(", "        let production = production_ir.rhs.iter().fold(")
+mut("C21", "R21.4", "export-swaps-states", PA + "generators/parser_model.rs",
+    "            .map(|t| LookaheadTransitionExportModel {\n                from_state: t.from_state,\n                term: t.term,\n                to_state: t.to_state,",
+    "            .map(|t| LookaheadTransitionExportModel {\n                from_state: t.to_state,\n                term: t.term,\n                to_state: t.from_state,")
+# ---- C26 / C30
+mut("C26", "R26.1", "question-mark-to-unwrap", PA + "generators/grammar_trans.rs",
+    "        GrammarType::LLK => check_and_transform_ll(cfg),", "        GrammarType::LLK => Ok(check_and_transform_ll(cfg).unwrap()),")
+mut("C30", "R30.1", "new-unwrap-in-rename", LS + "server.rs",
+    "    pub(crate) fn handle_rename(&self, params: RenameParams) -> Option<WorkspaceEdit> {",
+    "    pub(crate) fn handle_rename(&self, params: RenameParams) -> Option<WorkspaceEdit> {\n        let _ = self.documents.get(&params.text_document_position.text_document.uri).unwrap();")
+# ---- C27 / C28
+mut("C27", "R27.3", "drop-leftover-comments", LS + "formatting/format/format_impl.rs",
+    "        new_text.push_str(&comments.handle_comments(&fmt_options));", "        let _ = comments.is_empty();")
+mut("C28", "R28.1", "skip-list-tail-not-collected", LS + "parol_ls_grammar.rs",
+    "                        // Add the reference to the non-terminal for hover and rename support\n                        self.add_non_terminal_ref(&id.identifier.identifier);\n\n                        acc.push(id_sym);\n                        acc\n                    });\n\n                let mut skip_directive",
+    "                        acc.push(id_sym);\n                        acc\n                    });\n\n                let mut skip_directive")
+# ---- C31 / C32 / C34
+mut("C31", "R31.1", "insert-does-not-advance-exp", PT,
+    "                        .insert_token_at(stream_idx, expected_token_types[exp_idx])?;\n                    stream_idx += 1;\n                    exp_idx += 1;",
+    "                        .insert_token_at(stream_idx, expected_token_types[exp_idx])?;\n                    stream_idx += 1;")
+mut("C32", "R32.1", "setter-wrong-shift", PA + "analysis/k_tuple.rs",
+    "    fn set_next_index(&mut self, i: u8) {\n        self.t &= 0xF0FF_FFFF_FFFF_FFFF_FFFF_FFFF_FFFF_FFFF;\n        self.t |= (i as u128) << 120;",
+    "    fn set_next_index(&mut self, i: u8) {\n        self.t &= 0xF0FF_FFFF_FFFF_FFFF_FFFF_FFFF_FFFF_FFFF;\n        self.t |= (i as u128) << 116;")
+mut("C34", "R34.1", "ls-grammar-extra-alternative", "crates/parol-ls/parol_ls.par",
+    "    | \"%allow_unmatched\"\n    ;", "    | \"%allow_unmatched\"\n    | \"%allow_unmatched\" Identifier\n    ;")
